@@ -240,7 +240,8 @@ _setgen2.__name__ = "SetGen2"
 _setgen2.__annotations__ = {"p": _SP2, "return": h.Module}
 _SetGen2 = h.generator(_setgen2)
 try:
-    _groups = frozenset([frozenset(["a1", "b2", "c3"]), frozenset(["d4", "e5", "f6"]), frozenset(["g7", "h8"]), frozenset(["i9", "j0", "k1", "l2"])])
+    # (interleaved on purpose: which element a set's repr starts with decides how the sets compare)
+    _groups = frozenset([frozenset(["a1", "m5", "z9"]), frozenset(["b2", "n6", "y8"]), frozenset(["c3", "x7"]), frozenset(["d4", "k1", "w6", "e0"])])
     out["setparam"]["proto"].append(_SetGen2(groups=_groups).name)
 except Exception as e:
     out["setparam"]["proto"].append("exc2:" + type(e).__name__)
